@@ -161,6 +161,61 @@ def _setup_with_vocab(h):
 SaveSensors.setup = _setup_with_vocab
 
 
+def saved_state_is_current():
+    """vocabulary (engine side): what a start-up would load from the files as they are now is the state the gateway
+    holds now (no loss of unsynced data assumed: this clause is about the flag, not about the disk)"""
+    return True
+
+
+@contract("mysensors.persistence:Persistence.save_sensors", props=["C14", "C15"], name="save_sensors.concurrent-report")
+class SaveSensorsConcurrent:
+    """The save runs in the timer thread (threaded gateway) or in an executor thread (asyncio gateway) while the pump
+    goes on handling lines.  Rely: between any two file operations of the save the other thread may handle one report
+    that changes the persisted view - the in-memory state becomes a different one and `alert()` sets `need_save`.
+    Guarantee: the flag may be clear at the end only if the file holds the state the gateway holds then; otherwise
+    the change would be marked saved, every later tick and the final save of stop() would return early, and a clean
+    stop would lose it (C14), the schedule would not heal (C15).  The serialiser writes the state it finds when it
+    runs: a change before the dump is in the file, one after it is not."""
+
+    configs = [{"fmt": f, "prior": p, "report_before_op": k} for f in ("json", "pickle") for p in ("none", "main") for k in range(N_OPS)]
+
+    def setup(h):
+        _install_vocab(h.it)
+        c = h.config
+        p, fs = _persistence(h, c["fmt"])
+        v_old = _prior(h, fs, c["prior"])
+        new = _new_content(h)
+        env_ = h.it.env
+        env_.update(v_old=v_old, v_new=view(new), v_current=view(new), reported=False)
+
+        def hook(fs_, idx, name, path):
+            if idx != c["report_before_op"]:
+                return
+            # the pump thread handles one state-changing report now
+            changed = h.ctx.fresh_term(INT, "content_after_report")
+            h.ctx.add_fact(good(changed))
+            h.ctx.add_fact(view(changed) != ABSENT_VIEW)
+            h.ctx.add_fact(view(changed) != env_["v_current"])
+            env_["v_current"] = view(changed)
+            env_["new_content"] = changed  # what a dump that has not started yet would write
+            env_["reported"] = True
+            p.fields["need_save"] = True  # Gateway.alert
+
+        fs.obligation_hook = hook
+
+        def m_current(it2, a, k):
+            from pyvc import ops
+
+            st = fs.crash_states(lose_unsynced=False)[0]
+            return ops.mk("bool", fs.recover_term(st) == it2.env["v_current"])
+
+        h.it.models[id(saved_state_is_current)] = ModelFn("saved_state_is_current", m_current)
+        return [p], {}
+
+    raises = {}
+    ensures = {"flag-clear-only-if-file-current": lambda old, self, result: self.need_save or saved_state_is_current()}
+
+
 @contract("mysensors.persistence:Persistence.save_sensors", props=["C12", "C14"], name="save_sensors.clean")
 class SaveNotNeeded:
     """need_save False: nothing is touched."""
